@@ -20,7 +20,7 @@ RULE = ("text cleaners: EXHAUSTIVE over all strings of length <= 6 over the 5-sy
 ASSUMPTIONS = ["lxml's parser defines the element tree for the html cleaner; the generator only emits validly "
                "nested markup, which lxml does not restructure"]
 FLOORS = {"quick": {"strings": 40000, "exhaustive_strings": 19530, "step_lists": 39, "composition_checks": 100000,
-                    "invalid_step_checks": 20, "trees": 3000, "trees_with_hidden": 300, "whitespace_chars_seen": 20, "many_run_strings": 300},
+                    "namespace_names_as_steps": 50, "invalid_step_checks": 20, "trees": 3000, "trees_with_hidden": 300, "whitespace_chars_seen": 20, "many_run_strings": 300},
           "thorough": {"strings": 2000000, "trees": 150000, "composition_checks": 5000000}}
 NRAND = {"quick": 4000, "thorough": 200000}
 NTREE = {"quick": 450, "thorough": 12000}
@@ -253,7 +253,16 @@ def run_shard(spec, rec):
         check_string("".join(parts), rec, rng.sample(lists, 3))
         rec.count("many_run_strings")
     # invalid steps
-    for bad in ("nope", "", "HTML", "html ", 5, None, ("html",)):
+    # besides arbitrary strings: every name that is *visible* next to the cleaners (module attributes of
+    # eyecite.clean, builtins, near-miss spellings) but is not one of the four documented step names
+    import builtins
+    import eyecite.clean as EC
+    documented = {"html", "inline_whitespace", "all_whitespace", "underscores"}
+    namespace = sorted((set(dir(EC)) | {"str", "len", "print", "eval", "exec", "strip", "lower", "upper"}
+                        | {n.upper() for n in documented} | {n + " " for n in documented} | {n.replace("_", "-") for n in documented}
+                        | {n.replace("_", "") for n in documented} | {n + "s" for n in documented} | set(dir(builtins)[:40])) - documented)
+    rec.count("namespace_names_as_steps", len(namespace))
+    for bad in ["nope", "", "HTML", "html ", 5, None, ("html",)] + namespace:
         rec.count("invalid_step_checks")
         for text, steps in (("a  b", [bad]), ("a  b", ["all_whitespace", bad]), ("", [bad]),
                             ("______", ["underscores", bad]), (" ", ["all_whitespace", bad])):
